@@ -391,21 +391,25 @@ def _mutants(m, d):
     de = d.func("determineException")
     out = []
 
-    def cmp_swap(frm, to, nth):
+    strict = {ast.LtE: ast.Lt, ast.GtE: ast.Gt, ast.Lt: ast.LtE, ast.Gt: ast.GtE}
+
+    def cmp_nth(nth):
         def t(node):
             k = 0
             for n in ast.walk(node):
-                if isinstance(n, ast.Compare) and len(n.ops) == 1 and isinstance(n.ops[0], frm):
+                if isinstance(n, ast.Compare) and len(n.ops) == 1 and type(n.ops[0]) in strict:
                     if k == nth:
-                        n.ops[0] = to()
+                        n.ops[0] = strict[type(n.ops[0])]()
                         return True
                     k += 1
             return False
         return t
 
-    for i in range(2):
-        out.append(("get_exception: %d-th '>=' -> '>'" % i, ge, cmp_swap(ast.GtE, ast.Gt, i), True))
-        out.append(("get_exception: %d-th '<=' -> '<'" % i, ge, cmp_swap(ast.LtE, ast.Lt, i), True))
+    ncmp = sum(1 for n in ast.walk(ge.node) if isinstance(n, ast.Compare) and len(n.ops) == 1 and type(n.ops[0]) in strict)
+    if ncmp < 2:
+        raise AnalysisError("get_exception has fewer than two order comparisons: mutation adequacy has nothing to mutate")
+    for i in range(ncmp):
+        out.append(("get_exception: comparison #%d made (non-)strict" % i, ge, cmp_nth(i), True))
 
     def and_to_or(node):
         for n in ast.walk(node):
